@@ -1126,6 +1126,29 @@ func checkRound5Small(c *Ctx, id string) {
 			r.Unk("C20.reading-before-read", "(*core.Keys).ReadKey", "-", "anchor not found")
 		}
 	case "C14":
+		r.Rule("C14.prefix-before-cursor", "K3", "(*completion.Engine).setPrefix looks for the word to complete from the character before the cursor, Pos()-1, as it is: the position handed to SelectBlankWord is not a clamped one (a phi with the constant 0) — at the beginning of the line there is no character before the cursor and no prefix, and taking character 0 instead makes the candidate replace the first character of the text after the cursor", 1)
+		if SP := p.Func("(*completion.Engine).setPrefix"); SP != nil {
+			r.Fn(fnName(SP))
+			n := 0
+			for i, sb := range callsTo(SP, false, "(*core.Line).SelectBlankWord") {
+				n++
+				arg := sb.Common().Args[1]
+				clamped := false
+				if ph, ok := arg.(*ssa.Phi); ok {
+					for _, e := range ph.Edges {
+						if k, isK := constInt(e); isK && k == 0 {
+							clamped = true
+						}
+					}
+				}
+				r.Check(!clamped, "C14.prefix-before-cursor", fmt.Sprintf("(*completion.Engine).setPrefix:SelectBlankWord#%d", i), p.IPos(sb.(ssa.Instruction)), "the position is Pos()-1, not clamped", "the position before the cursor is clamped to 0 before the word is looked up: with the cursor at the beginning of the line, the first character of the text after the cursor is taken for the prefix and replaced by the candidate")
+			}
+			if n == 0 {
+				r.Unk("C14.prefix-before-cursor", "(*completion.Engine).setPrefix:SelectBlankWord", p.Pos(SP.Pos()), "no SelectBlankWord call: anchor changed")
+			}
+		} else {
+			r.Unk("C14.prefix-before-cursor", "(*completion.Engine).setPrefix", "-", "anchor not found")
+		}
 		r.Rule("C14.select-sets-keymap", "K1", "(*completion.Engine).Select enters the menu-select keymap (adjustSelectKeymap) on every path that goes on to move the selector: with `autocomplete` on Tab reaches Select directly, and without the keymap the next Tab or Ctrl-C is dispatched as an ordinary key — the candidate becomes part of the line and Ctrl-C ends Readline", 1)
 		if SE := p.Func("(*completion.Engine).Select"); SE != nil {
 			r.Fn(fnName(SE))
@@ -1388,5 +1411,109 @@ func checkRangeKeepsEmpty(c *Ctx, rule string) {
 	})
 	if n == 0 {
 		r.Unk(rule, "(*core.Line).checkRange:valid-returns", p.Pos(CR.Pos()), "no return with a true third result: anchor changed")
+	}
+}
+
+// checkDeleteCharStays: C16.delete-char-in-line. vi-delete (x) followed by
+// put-before gives back what was taken only if x takes characters under and
+// after the cursor: Line.CutRune at the end of the line removes the character
+// BEFORE the position.
+func checkDeleteCharStays(c *Ctx, rule string) {
+	p, r := c.P, c.R
+	r.Rule(rule, "K4", "in viDeleteChar every (*core.Line).CutRune at the cursor is made where the cursor is known to be before the end of the line (a `Pos() >= Len()` test left by its false branch, inside the loop): at the end CutRune removes the character before the cursor, and the register is given a character that was not cut", 1)
+	VD := p.Func("(*readline.Shell).viDeleteChar")
+	if VD == nil {
+		r.Unk(rule, "(*readline.Shell).viDeleteChar", "-", "anchor not found")
+		return
+	}
+	r.Fn(fnName(VD))
+	bf := blockFacts(VD)
+	loops := findLoops(VD)
+	n := 0
+	for i, cr := range callsTo(VD, false, "(*core.Line).CutRune") {
+		n++
+		in := cr.(ssa.Instruction)
+		guarded := false
+		for fc := range factsAt(bf, in) {
+			rel, ok := relOf(fc.Cond, fc.Val)
+			if !ok || rel.Op != token.LSS {
+				continue
+			}
+			isPos := dependsOn(rel.X, func(v ssa.Value) bool { cl, ok := v.(*ssa.Call); return ok && calleeName(cl) == "(*core.Cursor).Pos" })
+			isLen := dependsOn(rel.Y, func(v ssa.Value) bool { cl, ok := v.(*ssa.Call); return ok && calleeName(cl) == "(*core.Line).Len" })
+			if !isPos || !isLen {
+				continue
+			}
+			// the test is re-made on every iteration: it sits in the same loop as the cut
+			cond, _ := fc.Cond.(ssa.Instruction)
+			inLoop := len(loops) == 0
+			for _, l := range loops {
+				if l.Blocks[in.Block()] {
+					if cond != nil && l.Blocks[cond.Block()] {
+						inLoop = true
+					}
+				} else {
+					inLoop = true
+				}
+			}
+			if inLoop {
+				guarded = true
+			}
+		}
+		r.Check(guarded, rule, fmt.Sprintf("(*readline.Shell).viDeleteChar:CutRune#%d", i), p.IPos(in), "under Pos() < Len(), tested on every iteration", "the cut is repeated without testing that the cursor is still before the end of the line: with a count larger than what is left, the characters before the cursor are cut too and NULs are stored in the register — put-before does not give back what was taken")
+	}
+	if n == 0 {
+		r.Unk(rule, "(*readline.Shell).viDeleteChar:CutRune", p.Pos(VD.Pos()), "no CutRune call: anchor changed")
+	}
+}
+
+// checkInsertCopies: C16.insert-copies. What a kill stored is what the next yank
+// inserts only if nothing writes the kill buffer behind its back: Line.Insert is
+// handed the buffer's own slice by the yank commands and must not keep it.
+func checkInsertCopies(c *Ctx, rule string) {
+	p, r := c.P, c.R
+	r.Rule(rule, "K3", "(*core.Line).Insert never makes the line the slice it was given (a store of the `chars` parameter, or of a reslice of it, through the receiver): the yank commands pass the kill buffer's own slice, and a line sharing its storage changes the kill buffer with every in-place edit (capitalize-word, vi-replace…) — the next yank then inserts something that was never killed", 1)
+	IN := p.Func("(*core.Line).Insert")
+	if IN == nil || len(IN.Params) < 3 {
+		r.Unk(rule, "(*core.Line).Insert", "-", "anchor not found")
+		return
+	}
+	r.Fn(fnName(IN))
+	recv, chars := IN.Params[0], IN.Params[2]
+	var isChars func(v ssa.Value, depth int) bool
+	isChars = func(v ssa.Value, depth int) bool {
+		if depth > 6 {
+			return false
+		}
+		v = stripConv(v)
+		if v == ssa.Value(chars) {
+			return true
+		}
+		switch x := v.(type) {
+		case *ssa.Slice:
+			return isChars(x.X, depth+1)
+		case *ssa.Phi:
+			for _, e := range x.Edges {
+				if isChars(e, depth+1) {
+					return true
+				}
+			}
+		}
+		return false
+	}
+	n, bad := 0, 0
+	eachInstr(IN, func(in ssa.Instruction) {
+		st, ok := in.(*ssa.Store)
+		if !ok || st.Addr != ssa.Value(recv) {
+			return
+		}
+		n++
+		if isChars(st.Val, 0) {
+			bad++
+			r.Bad(rule, fmt.Sprintf("(*core.Line).Insert:store#%d", n), p.IPos(in), "the line is made the very slice it was given: a yank into an empty line shares the kill buffer's storage, and later edits of the line change the kill buffer")
+		}
+	})
+	if bad == 0 {
+		r.OK(rule, "(*core.Line).Insert:stores", p.Pos(IN.Pos()), fmt.Sprintf("%d store(s) through the receiver, none of the parameter slice itself", n))
 	}
 }
